@@ -121,7 +121,7 @@ pub mod report {
         }
     }
 
-    /// Every diagnostic of the report, sorted by (file, line, kind).
+    /// Every diagnostic of the report: files sorted by name, entries of a file in report order.
     pub fn entries(report: &FormatReport) -> Vec<Entry> {
         let internal = report.internal.borrow();
         let mut v = vec![];
@@ -142,7 +142,7 @@ pub mod report {
                 });
             }
         }
-        v.sort_by(|a, b| (&a.file, a.line, a.kind).cmp(&(&b.file, b.line, b.kind)));
+        v.sort_by(|a, b| a.file.cmp(&b.file));
         v
     }
 
